@@ -155,6 +155,18 @@ func runC34(c *eng.Ctx) {
 				c.Check("R3", s.fn+"/sends", call.Pos(), eng.Render(call.Common().Args[1]) == "agent."+s.send, s.fn+" sends its own magic number", eng.Render(call.Common().Args[1]))
 			}
 		}
+		// The client, which speaks second, answers only a verified server: its own
+		// number goes out only where the server's number was received and matched.
+		// (Were it sent first, a server whose number arrived corrupted would see a
+		// valid answer and proceed while the client has already given up.)
+		if s.fn == "ClientHandshake" {
+			for _, call := range eng.CallsNamed(fn, "agent.sendMagicNumber") {
+				g := eng.Guards(call)
+				ok := eng.HasAtom(g, `^agent\.receiveAndCompareMagicNumber\(p0, agent\.`+s.expect+`\)#0$`, true) &&
+					eng.HasAtom(g, `^\(agent\.receiveAndCompareMagicNumber\(p0, agent\.`+s.expect+`\)#1 == nil\)$`, true)
+				c.Check("R3", "client-answers-only-verified-server", call.Pos(), ok, "the client sends its magic number only after the server's number was received and found correct — so a rejected handshake fails on both sides", atomsShort(g))
+			}
+		}
 		paths := pathsToNilReturns(c, "R3", fn, 2000)
 		bad := 0
 		for _, p := range paths {
